@@ -1129,31 +1129,57 @@ func pedersenCommitHashedRule(P *Program, R *Report, rule string) {
 		if fn == nil {
 			continue
 		}
-		ok := false
-		for _, c := range callsIn(fn) {
-			call, isC := c.(*ssa.Call)
-			if !isC || !isCallTo(call, "builtin:append") {
-				continue
+		// (in the function itself, or in an unexported helper that finishes the commitment on its behalf and whose
+		// result the function returns - examined with the helper's parameters bound to the call's arguments)
+		ok, okFwd := false, false
+		deepVisit(P, fn, 1, func(g *ssa.Function) {
+			passesFresh := false
+			if g != fn {
+				returned := false
+				for _, r := range returnsOf(fn) {
+					if c, _ := callAndResult(r.Results[0]); c != nil && staticCallee(c) == g {
+						returned = true
+						// (inside the helper the commitment object is a parameter: the function hands it its own new object)
+						for _, a := range callArgs(c) {
+							if strings.HasPrefix(k.want, desc(a)+".") {
+								passesFresh = true
+							}
+						}
+					}
+				}
+				if !returned {
+					return
+				}
 			}
-			if e := appendedSingle(call); e != nil && desc(e) == k.want {
-				for _, r := range sliceRoots(callArgs(call)[0]) {
-					if strings.HasPrefix(desc(r), "arg#") {
-						ok = true
+			okG := false
+			for _, c := range callsIn(g) {
+				call, isC := c.(*ssa.Call)
+				if !isC || !isCallTo(call, "builtin:append") {
+					continue
+				}
+				if e := appendedSingle(call); e != nil && (desc(e) == k.want || (g != fn && desc(e) == canonOwner(k.want) && passesFresh)) {
+					for _, r := range sliceRoots(callArgs(call)[0]) {
+						if strings.HasPrefix(desc(r), "arg#") {
+							okG = true
+						}
 					}
 				}
 			}
-		}
-		// ... and the extended list is what the representation proof continues from
-		okFwd := false
-		for _, r := range returnsOf(fn) {
-			if c, _ := callAndResult(r.Results[0]); c != nil {
-				for _, a := range callArgs(c) {
-					if ap, isAp := a.(*ssa.Call); isAp && isCallTo(ap, "builtin:append") {
-						okFwd = true
+			// ... and the extended list is what the representation proof continues from
+			okFwdG := false
+			for _, r := range returnsOf(g) {
+				if c, _ := callAndResult(r.Results[0]); c != nil {
+					for _, a := range callArgs(c) {
+						if ap, isAp := a.(*ssa.Call); isAp && isCallTo(ap, "builtin:append") {
+							okFwdG = true
+						}
 					}
 				}
 			}
-		}
+			if okG && okFwdG {
+				ok, okFwd = true, true
+			}
+		})
 		R.decide(rule, k.fn+":commit-hashed", k.what+" and continues from the extended list", ok && okFwd, "", P.Pos(fn.Pos()))
 	}
 }
